@@ -579,6 +579,10 @@ def clause_g(rep, F):
     rep.floor("handler outcomes that report an omitted node", n, 10)
     rep.floor("omitted keys / values with a known next state", npair, 4)
     omitted_token_sets(rep, F, E, table)
+    from . import dispatch
+    rep.floor("rows of the token dispatch table compared with the specification", dispatch.check(rep, F), 500)
+    from . import charclass
+    rep.floor("character classes compared with their productions", charclass.check(rep, F, ["is_anchor_char", "is_flow", "is_digit", "is_blank_or_breakz"]), 3)
 
 
 # After an indicator token the node is left out exactly when the token that follows cannot start a node but may legally follow.  The sets are
